@@ -1,20 +1,26 @@
 #!/bin/bash
-# usage: mut.sh <file-in-repo> <python-expr old> <python-expr new> -- <hvc verify args...>
-# Copies /repo to a scratch dir, applies one textual replacement, runs hvc verify, removes the copy.
-set -e
-file="$1"; old="$2"; new="$3"; shift 3; [ "$1" = "--" ] && shift
+# usage: mut.sh <file-in-repo> <func-name-or-> <old> <new> -- <hvc verify args...>
+# Copies /repo to a scratch dir, applies one textual replacement (inside the named func if given, '-' = anywhere),
+# runs hvc verify on the copy, removes the copy. old/new may contain \n and \t escapes.
+file="$1"; fn="$2"; old="$3"; new="$4"; shift 4; [ "$1" = "--" ] && shift
 scr=$(mktemp -d /tmp/hvcmut.XXXXXX)
 rsync -a --exclude .git /repo/ "$scr/"
-python3 - "$scr/$file" "$old" "$new" <<'PY'
-import sys
-p,old,new=sys.argv[1:4]
+python3 - "$scr/$file" "$fn" "$old" "$new" <<'PY'
+import sys,re
+p,fn,old,new=sys.argv[1:5]
 s=open(p).read()
-old=old.encode().decode('unicode_escape'); new=new.encode().decode('unicode_escape')
-if old not in s:
-    print("PATTERN NOT FOUND"); sys.exit(3)
-s=s.replace(old,new,1)
+old=old.replace('\\n','\n').replace('\\t','\t'); new=new.replace('\\n','\n').replace('\\t','\t')
+start=0
+if fn!='-':
+    m=re.search(r'^func (\([^)]*\) )?'+re.escape(fn)+r'\(', s, re.M)
+    if not m: print("FUNC NOT FOUND"); sys.exit(3)
+    start=m.start()
+k=s.find(old,start)
+if k<0: print("PATTERN NOT FOUND"); sys.exit(3)
+s=s[:k]+new+s[k+len(old):]
 open(p,'w').write(s)
 PY
+[ $? -eq 0 ] || { rm -rf "$scr"; exit 3; }
 (cd "$scr" && GOFLAGS=-mod=mod GOPROXY=off GOSUMDB=off GOTOOLCHAIN=local go build ./... ) || echo "MUTANT DOES NOT COMPILE"
 /verif/bin/hvc verify -repo "$scr" "$@" || true
 rm -rf "$scr"
